@@ -791,9 +791,13 @@ impl PaZipCompressor {
         }
         
         let remaining = &input[pos..];
-        let max_length = remaining.len().min(256); // PA-Zip max pattern length
-        
-        self.dictionary.find_longest_match(remaining, 0, max_length)
+        // The legacy Global record is [1][dict_offset: u16][length: u16] (apply_compression_strategy /
+        // decompress_match).  find_longest_match follows the input as far as the dictionary matches and
+        // ignores its max_length argument, so bound the searched slice, and do not use a match whose
+        // dictionary position does not fit the record (the caller then falls back to a literal).
+        let max_length = remaining.len().min(u16::MAX as usize);
+        let found = self.dictionary.find_longest_match(&remaining[..max_length], 0, max_length)?;
+        Ok(found.filter(|m| m.dict_position <= u16::MAX as usize && m.length <= u16::MAX as usize))
     }
     
     /// Step 3: Calculate costs for each possible compression strategy
